@@ -112,13 +112,13 @@ def r6(fx):
 
 def _classifier(fx, it, genv, n, val):
     """(i, j) -> module type, as matrix_iter_verbose classifies an n x n symbol whose modules all have value `val`.
-    If the classifier is a function nested in matrix_iter_verbose with two parameters (whatever its name) it is called cell
+    If the classifier is the two-parameter function `get_bit` nested in matrix_iter_verbose it is called cell
     by cell (so that large symbols can be examined on a compressed grid); otherwise matrix_iter_verbose itself is interpreted
     once with a border of 2 and the answers are read from the grid it yields."""
     fn = fx.fn('utils', 'matrix_iter_verbose')
     m = reg.Matrix([reg.Row([val] * n) for _ in range(n)])
     k = [i for i, s in enumerate(fn.body) if isinstance(s, ast.FunctionDef) and len(s.args.args) == 2 and not s.args.vararg and not s.args.kwonlyargs]
-    if len(k) == 1:
+    if len(k) == 1 and fn.body[k[0]].name == 'get_bit':       # the reference name (canon restores it after a mere renaming)
         e = dict(genv, **{p: v for p, v in zip(src.params(fn), (m, (n, n), 1, 0))})
         try:
             it.block(fn.body[:k[0] + 1], e)
